@@ -6,6 +6,7 @@
 package xast
 
 import (
+	"encoding/json"
 	"math/big"
 	"strings"
 )
@@ -263,4 +264,57 @@ func Print(e *Expr, o Opts) string {
 		return b.String()
 	}
 	return "?" + e.T
+}
+
+// MarshalJSON writes exactly the fields of the corresponding XSem.tla
+// constructor, so that ndJsonDeserialize yields the specification's records.
+func (e *Expr) MarshalJSON() ([]byte, error) {
+	m := map[string]interface{}{"t": e.T}
+	seq := func(x []*Expr) []*Expr {
+		if x == nil {
+			return []*Expr{}
+		}
+		return x
+	}
+	steps := func(x []Step) []Step {
+		if x == nil {
+			return []Step{}
+		}
+		return x
+	}
+	switch e.T {
+	case "path":
+		m["abs"] = e.Abs
+		m["steps"] = steps(e.Steps)
+	case "filter":
+		m["e"] = e.E
+		m["preds"] = seq(e.Preds)
+		m["steps"] = steps(e.Steps)
+	case "union":
+		m["l"], m["r"] = e.L, e.R
+	case "seqstep":
+		m["base"] = e.Base
+		m["alts"] = steps(e.Alts)
+	case "bin":
+		m["op"], m["l"], m["r"] = e.Op, e.L, e.R
+	case "neg":
+		m["e"] = e.E
+	case "lit":
+		m["s"] = e.S
+	case "num":
+		m["v"] = e.V
+	case "call":
+		m["f"] = e.F
+		m["args"] = seq(e.Args)
+	}
+	return json.Marshal(m)
+}
+
+// MarshalJSON always writes preds (possibly empty).
+func (s Step) MarshalJSON() ([]byte, error) {
+	p := s.Preds
+	if p == nil {
+		p = []*Expr{}
+	}
+	return json.Marshal(map[string]interface{}{"ax": s.Ax, "nt": s.Nt, "preds": p})
 }
